@@ -2,6 +2,7 @@
 # usage: tools_try_patch.sh <patch> <prop> [-R]   -- apply patch to /repo, run govc for prop, revert
 set -u
 P=$1; PROP=$2; REV=${3:-}
+if [ -n "$(git -C /repo status --porcelain --untracked-files=no)" ]; then echo "REFUSING: /repo has uncommitted tracked changes"; exit 4; fi
 export GOFLAGS=-mod=mod GOPROXY=off GOSUMDB=off GOTOOLCHAIN=local
 git -C /repo apply $REV "$P" || { echo "APPLY FAILED"; exit 3; }
 /verif/bin/govc -repo /repo -spec /verif/contracts/stdlib.go -props $PROP -out /tmp/try.json 2>&1 | tail -${LINES_OUT:-12}
